@@ -14,6 +14,8 @@ From NB Require Import Merge.Apply.
 From NB Require Import Merge.MergeGeneric.
 From NB Require Import Merge.MergeProofs.
 From NB Require Import Merge.MergeSmallScope.
+From NB Require Import Merge.MergeApplyProofs.
+From NB Require Import Diff.Patch.
 From NB Require Import Gen.MergeFacts.
 Import ListNotations.
 
@@ -38,6 +40,16 @@ Theorem merge_onesided_r_partial : forall O cfg St H base d decs,
   plain_string_root St base -> decide O cfg St H base [] d = Ok decs -> no_conf decs.
 Proof. exact (fun O cfg St H => decide_onesided_remote O cfg St H chunks_guard entry_eq_strict conflict_assert_strict). Qed.
 Print Assumptions merge_onesided_r_partial.
+
+(* one-sided adoption, FULL statement for flat object diffs: for every object base and every non-empty diff made of
+   add / remove / replace entries with strictly increasing keys (what the differ emits for an object whose changed members are
+   not containers), the merge is conflict-free and applying its decisions is exactly patching base with the diff *)
+Theorem merge_onesided_l_flat_object : forall O cfg St H kv d,
+  d <> [] -> flat d -> skeys_lt None d ->
+  exists decs, decide O cfg St H (JObj kv) d [] = Ok decs /\ no_conf decs
+               /\ apply_decisions (JObj kv) decs = patch (pfuel (JObj kv) d) (JObj kv) d.
+Proof. exact (fun O cfg St H => onesided_flat_object O cfg St H chunks_guard entry_eq_strict conflict_assert_strict). Qed.
+Print Assumptions merge_onesided_l_flat_object.
 
 (* the same change on both sides *)
 Theorem merge_agree_partial : forall O cfg St H base d decs,
